@@ -483,7 +483,24 @@ func nullUnionContainersUnderNamed(c RTCase) (RTCase, bool) {
 	})
 }
 
+// isAmbiguousNamedMember holds for a union value whose selected member is a
+// named type name=T while T itself is also a member of the union.
+func isAmbiguousNamedMember(typ zed.Type, body zcode.Bytes) bool {
+	u, ok := typ.(*zed.TypeUnion)
+	if !ok || body == nil {
+		return false
+	}
+	it := body.Iter()
+	m, ok := u.Types[int(zed.DecodeInt(it.Next()))].(*zed.TypeNamed)
+	return ok && u.TagOf(m.Type) >= 0
+}
+
 var rtNeutralisers = []neutraliser{
+	// no error message in this variant: under a union that has both T and
+	// name=T, `v (=name)` is matched against the union first and gets T's tag
+	{"C02/zson/typedef-value-under-enclosing-cast-mishandled", func(c RTCase) (RTCase, bool) {
+		return mapSeq(c, func(v zed.Value) zed.Value { return nullWhere(v, isAmbiguousNamedMember) })
+	}},
 	{"C02/zson/union-element-decorator-dropped-under-known-type", nullUnionContainersUnderNamed},
 	{"C02/zson/compact-map-colon-joins-tokens", func(c RTCase) (RTCase, bool) {
 		if c.Pretty != 0 {
@@ -754,7 +771,21 @@ var rtSymptoms = []symptom{
 	// itself: only the double conversion in Analyzer.convertValue does that.
 	{"C02/zson/union-decorator-under-enclosing-cast-rejected", failing(func(f *rtFail) bool {
 		x, u, ok := notInUnionTypes(f.err)
-		return f.kind == "parse-error" && ok && x == u
+		if f.kind != "parse-error" || !ok {
+			return false
+		}
+		if x == u {
+			return true
+		}
+		// the same for a named union: x is name=(union), u the union
+		zctx := zed.NewContext()
+		xt, err1 := zson.ParseType(zctx, x)
+		ut, err2 := zson.ParseType(zctx, u)
+		if err1 != nil || err2 != nil {
+			return false
+		}
+		_, named := xt.(*zed.TypeNamed)
+		return named && zed.TypeUnder(xt) == ut
 	})},
 	// `v (=name)` where an enclosing decorator says the position is a union
 	// with member name=T: the analyzer checks v's type T against the union
